@@ -394,6 +394,7 @@ class CpBad(ContextProcessor):
 SlAdd = make_slicer(OpAdd, IntColl)
 SlAddDef = make_slicer(OpAddDef, IntColl)
 SlPrParam = make_slicer(PrParam, IntColl)
+SlCtxW = make_slicer(OpCtxW, IntColl)  # a slicer over a context-writing operation
 
 
 def register() -> None:
